@@ -11,8 +11,9 @@ G_Begin == /\ begun < MaxTxns /\ begun' = begun + 1
                 \* bias the walk towards applicable transactions: wrong nonces only in one canonical shape
                 /\ \/ t.nonce = nonce[t.from] + 1
                    \/ (t.nonce \in {nonce[t.from], nonce[t.from] + 2} /\ t.value = 1 /\ t.fee = 0 /\ t.to = "c2")
-                /\ Begin(t) /\ hist' = Append(hist, t @@ [out |-> "none"])
-G_ok == A_ExecSC_ok /\ hist' = [hist EXCEPT ![Len(hist)].out = "ok"]
+                /\ Begin(t) /\ hist' = Append(hist, t @@ [out |-> "none", q |-> <<>>, s |-> <<>>, kv |-> 0])
+G_ok == A_ExecSC_ok /\ hist' = [hist EXCEPT ![Len(hist)].out = "ok", ![Len(hist)].q = queue', ![Len(hist)].s = signed',
+                                                ![Len(hist)].kv = okv'[cur.to]]
 G_fail == A_ExecSC_fail /\ hist' = [hist EXCEPT ![Len(hist)].out = "fail"]
 G_other == (A_ExecSend \/ A_ExecData \/ A_QueueFee \/ A_ApplyTransfer \/ A_ApplySigned
             \/ A_IncNonce \/ A_Commit \/ A_Reject) /\ UNCHANGED hist
